@@ -413,7 +413,8 @@ impl FileSpec {
                         s == suffix
                     })
                 } else {
-                    true
+                    // without suffix, compressed files must not be taken for plain files
+                    !path.extension().is_some_and(|ext| ext == "gz")
                 }
             })
             .filter(|path| {
